@@ -65,3 +65,15 @@ Example C12_example_doc :
   sp_slice_ok src false (t 13) = true /\ sp_slice_ok src false (t 12) = false /\
   sp_slice_ok src false (t 14) = false.
 Proof. vm_compute. repeat split. Qed.
+
+(* a delimited span is delimiter + children + delimiter: three asterisks, a, one asterisk.  The emphasis is
+   the third asterisk, a, and the closer (1:3-1:5); the position that ignores how many delimiter characters
+   of the opening run stay literal text (1:1-1:5) still starts and ends with an asterisk but is rejected *)
+Example C12_example_leftover_delimiters :
+  let src := B "***a*" in
+  let t (s : N) := Node Document (mkSp 1 1 1 5)
+            [Node Paragraph (mkSp 1 1 1 5)
+              [Node (Text (B "**")) (mkSp 1 1 1 2) [];
+               Node Emph (mkSp 1 s 1 5) [Node (Text (B "a")) (mkSp 1 4 1 4) []]]] in
+  sp_slice_ok src false (t 3) = true /\ sp_slice_ok src false (t 1) = false /\ sp_slice_ok src false (t 2) = false.
+Proof. vm_compute. repeat split. Qed.
